@@ -1,8 +1,8 @@
 (* Property C11 - any input is parsed or rejected with a parse error.
    Theorems only.  Wall-clock time and the interpreter recursion limit are
    outside the model (checked by the hunter). *)
-From MF Require Import Lib.Base Model.GrammarTypes Model.Lexer Model.LR Model.Transformer Model.Api
-  Proofs.C11 Proofs.GrammarFacts Proofs.LRFacts Gen.Grammar.
+From MF Require Import Lib.Base Lib.Regex Model.GrammarTypes Model.Lexer Model.LR Model.Transformer Model.Api
+  Proofs.C11 Proofs.GrammarFacts Proofs.LRFacts Proofs.Fuel Proofs.LRTyping Gen.Grammar.
 
 (* [U] mappyfile's token-retyping hook is total: its only partial operation,
    value_stack[-1], is guarded (before the fix recorded in known_findings.json
@@ -29,18 +29,49 @@ Proof. exact (conj the_grammar_table_ok the_grammar_types_ok). Qed.
 Print Assumptions C11_lalr_table_validated.
 
 (* [U] for EVERY text, loads returns a value or fails with a lark VisitError, or
-   UnexpectedCharacters / UnexpectedToken carrying the offending position: the
-   LR driver's internal failure modes (missing rule or goto, stack underflow,
-   assertion, attribute error) are excluded by the stack invariant the validated
-   table maintains.  PARTIAL only in that exhaustion of the model's reduce fuel
-   (a bound on consecutive reductions, with no counterpart in Python) is not
-   excluded by a theorem; no explored input reaches it. *)
-Theorem C11_loads_failure_classes_partial :
+   UnexpectedCharacters / UnexpectedToken carrying the offending position - and
+   nothing else.  The LR driver's internal failure modes (missing rule or goto,
+   stack underflow, assertion, attribute error) are excluded by the stack
+   invariant the validated table maintains; exhaustion of the model's own fuel
+   (parse loop, lexer, matcher, consecutive reductions, transformer helpers) is
+   excluded by Proofs/Fuel.v: every terminal pattern of every scanner is non-
+   nullable ([F], sound nullability analysis), so each token consumes a character,
+   and the table passes a validator bounding the reductions between two shifts
+   ([F]) by the model's reduce_fuel. *)
+Theorem C11_loads_failure_classes :
   forall ip ic text e,
     loads ip ic text = Err e ->
-    e = LarkVisitError \/ lark_syntax_error e \/ e = OutOfFuel.
-Proof. exact loads_errors_strong. Qed.
-Print Assumptions C11_loads_failure_classes_partial.
+    e = LarkVisitError \/ lark_syntax_error e.
+Proof. exact loads_errors_total. Qed.
+Print Assumptions C11_loads_failure_classes.
+
+(* [U] the parse never stops for lack of fuel; the matcher's answer does not
+   depend on its fuel once it covers the remaining input (so the model's fuel
+   parameters are artefacts of structural recursion, not behaviour) *)
+Theorem C11_parse_never_out_of_fuel :
+  forall wc text, parse_text the_grammar the_hook wc text <> Err OutOfFuel.
+Proof. exact parse_text_never_out_of_fuel. Qed.
+Print Assumptions C11_parse_never_out_of_fuel.
+
+Theorem C11_matcher_fuel_irrelevant :
+  forall r A f1 f2 (s : inp) (k : inp -> option A),
+    (length (snd s) <= f1)%nat -> (length (snd s) <= f2)%nat -> rmatch r f1 s k = rmatch r f2 s k.
+Proof. exact rmatch_fuel_stable. Qed.
+Print Assumptions C11_matcher_fuel_irrelevant.
+
+(* [F] the two validators behind it, on the generated grammar *)
+Theorem C11_fuel_validators : lexers_nonnull the_grammar = true /\ reduce_fuel_ok the_grammar = true.
+Proof. exact (conj the_grammar_lexers_nonnull the_grammar_reduce_fuel_ok). Qed.
+Print Assumptions C11_fuel_validators.
+
+(* [U] every tree the parser returns conforms to the grammar: each node was
+   built by a rule of the grammar from values whose symbols spell the rule's
+   expansion (Proofs/LRTyping.v: symbol-typing invariant of the LR stacks) *)
+Theorem C11_parse_tree_conforms :
+  forall ic text t, parse_tree ic text = Ok t ->
+    has_sym the_grammar (acc the_grammar (g_end the_grammar)) (strip t) /\ conforms the_grammar (strip t).
+Proof. exact parse_tree_strip_conforms. Qed.
+Print Assumptions C11_parse_tree_conforms.
 
 (* [F] every block type the generated grammar can open (its composite_type
    alternatives, plus METADATA, VALIDATION, CONNECTIONOPTIONS, SYMBOLSET) is
